@@ -19,6 +19,23 @@ ACO = "berty.tech/go-orbit-db/accesscontroller/orbitdb"
 ODB = "berty.tech/go-orbit-db/baseorbitdb"
 
 CHECKS = {
+    "C13": {
+        "groups": [{
+            "pkg": BS, "funcs": ["VerifC13Snapshot"],
+            "params": {"quick": {"T": 3, "SIZES": 0}, "thorough": {"T": 4, "SIZES": 0}},
+            "covers": {"VerifC13Snapshot": ["empty", "chain", "replicated", "saved", "loaded"]},
+        }, {
+            "pkg": BS, "funcs": ["VerifC13Snapshot"],
+            "params": {"quick": {"T": 2, "SIZES": 1048576}, "thorough": {"T": 3, "SIZES": 1048576}},
+            "covers": {"VerifC13Snapshot": ["saved", "loaded", "save-refused"]},
+        }],
+        "assumptions": [
+            "log shapes: empty, single-writer chain of T entries, two writers with a replicated entry (so the replicator's task table is non-empty); the real SaveSnapshot, GetQueue, LoadFromSnapshot, NewFromJSON, Join run over an in-memory Unixfs and cache",
+            "size clause: every encoded header / entry / queue document has a SYMBOLIC byte length in [2, 2^20]; the snapshot file is a rope of segments with symbolic lengths, length prefixes are computed by the real uint16 conversions and PutUint16/Uint16 on symbolic values; a read at a symbolic offset asks the solver whether offset and length are forced to coincide with a written segment, otherwise the bytes read are unconstrained",
+            "a counterexample of the size clause is replayed natively with payloads that are really that large",
+        ],
+        "outside": ["unixfs chunking", "documents longer than 1 MiB", "JSON byte content", "snapshots taken while fetches are pending (the queue is non-empty): the reloaded log is then the saved one plus whatever the resumed fetches add"],
+    },
     "C18": {
         "groups": [{
             "pkg": BS, "funcs": ["VerifC18Close"],
